@@ -1,6 +1,8 @@
 // gv-impl — runs the real gimli entry points on the cases produced by gv-model.
 // stdin: one case per line (`<stream> tok tok ...`), stdout: one canonical result per line.
-// A panic inside gimli is caught and printed as `panic`.
+// A panic inside gimli is caught and printed as `panic`. A per-case watchdog prints `hang` for a case
+// that does not return within GV_CASE_TIMEOUT seconds (default 20) and exits with status 3; the driver
+// restarts the harness on the remaining cases.
 #![allow(clippy::all)]
 #![allow(unused)]
 pub mod util;
@@ -10,15 +12,44 @@ include!(concat!(env!("OUT_DIR"), "/dispatch.rs"));
 
 use std::io::{BufRead, Write};
 use std::panic;
+use std::sync::atomic::{AtomicU64, Ordering};
+use std::sync::{Arc, Mutex};
+use std::time::{Duration, Instant};
 
 fn main() {
     if std::env::var_os("GV_VERBOSE").is_none() {
         panic::set_hook(Box::new(|_| {}));
     }
-    let stdin = std::io::stdin();
-    let stdout = std::io::stdout();
-    let mut out = std::io::BufWriter::with_capacity(1 << 16, stdout.lock());
     let flush_each = std::env::var_os("GV_FLUSH").is_some();
+    let case_timeout: u64 = std::env::var("GV_CASE_TIMEOUT").ok().and_then(|s| s.parse().ok()).unwrap_or(20);
+    let out: Arc<Mutex<Vec<u8>>> = Arc::new(Mutex::new(Vec::with_capacity(1 << 16)));
+    let started = Arc::new(AtomicU64::new(0)); // number of cases started so far
+    let epoch = Instant::now();
+    let started_at = Arc::new(AtomicU64::new(0)); // millis since epoch when the current case started
+    {
+        let (out, started, started_at) = (out.clone(), started.clone(), started_at.clone());
+        std::thread::spawn(move || {
+            let mut last_seen = 0u64;
+            loop {
+                std::thread::sleep(Duration::from_millis(250));
+                let n = started.load(Ordering::SeqCst);
+                let t0 = started_at.load(Ordering::SeqCst);
+                let now = epoch.elapsed().as_millis() as u64;
+                if n > 0 && n == last_seen && now.saturating_sub(t0) > case_timeout * 1000 {
+                    // the current case is stuck: report it and give up on this process
+                    let mut buf = out.lock().unwrap_or_else(|e| e.into_inner());
+                    buf.extend_from_slice(b"hang\n");
+                    let so = std::io::stdout();
+                    let mut so = so.lock();
+                    let _ = so.write_all(&buf);
+                    let _ = so.flush();
+                    std::process::exit(3);
+                }
+                last_seen = n;
+            }
+        });
+    }
+    let stdin = std::io::stdin();
     for line in stdin.lock().lines() {
         let line = match line {
             Ok(l) => l,
@@ -28,15 +59,28 @@ fn main() {
         if toks.is_empty() || toks[0].is_empty() {
             continue;
         }
+        started_at.store(epoch.elapsed().as_millis() as u64, Ordering::SeqCst);
+        started.fetch_add(1, Ordering::SeqCst);
         let r = panic::catch_unwind(|| dispatch(&toks));
         let s = match r {
             Ok(s) => s,
             Err(_) => "panic".to_string(),
         };
-        let _ = writeln!(out, "{}", s);
-        if flush_each {
-            let _ = out.flush();
+        let mut buf = out.lock().unwrap_or_else(|e| e.into_inner());
+        buf.extend_from_slice(s.as_bytes());
+        buf.push(b'\n');
+        if flush_each || buf.len() > (1 << 16) {
+            let so = std::io::stdout();
+            let mut so = so.lock();
+            let _ = so.write_all(&buf);
+            let _ = so.flush();
+            buf.clear();
         }
     }
-    let _ = out.flush();
+    started.store(0, Ordering::SeqCst);
+    let buf = out.lock().unwrap_or_else(|e| e.into_inner());
+    let so = std::io::stdout();
+    let mut so = so.lock();
+    let _ = so.write_all(&buf);
+    let _ = so.flush();
 }
